@@ -1220,3 +1220,37 @@ func TestD34_DeeplyIndirectedMarkerStructIsRejected(t *testing.T) {
 		}
 	}
 }
+
+// D35 (C07): name affinity was lost when the only converter is entered through
+// another of its inputs. The same-name discount was applied only while the
+// target's own named parameter was searched for; the converter's type-only
+// input was then resolved by a nested search without any preference, so the
+// values named n and m tied and m was converted in ~40% of calls.
+type d35Cfg int
+type d35Src int
+type d35Dst string
+
+func TestD35_NameAffinityThroughMultiInputConverter(t *testing.T) {
+	target := argmapper.MustFunc(argmapper.NewFunc(func(in struct {
+		argmapper.Struct
+		N d35Dst
+	}) string {
+		return string(in.N)
+	}))
+	conv := func(in struct {
+		argmapper.Struct
+		Q d35Cfg
+		X d35Src `argmapper:",typeOnly"`
+	}) d35Dst {
+		return d35Dst(fmt.Sprint(int(in.X)))
+	}
+	for i := 0; i < 300; i++ {
+		res, p := call(target, argmapper.Named("q", d35Cfg(0)), argmapper.Named("n", d35Src(1)), argmapper.Named("m", d35Src(2)), argmapper.Converter(conv))
+		if p != nil || res.Err() != nil {
+			t.Fatalf("%v %v", p, res.Err())
+		}
+		if got := res.Out(0).(string); got != "1" {
+			t.Fatalf("iteration %d: parameter n was converted from %s, the supplied value named n is 1", i, got)
+		}
+	}
+}
